@@ -715,6 +715,9 @@ class RectContain(Harness):
 
     def concrete(self, cfg, rng):
         """unrotated rectangles (and 180 deg) against the polygon oracle"""
+        rep = 0
+        if cfg['rot'] == 0.0 and cfg['order'] == 'll-ur':
+            rep = rep_containment()
         sh = repo_module(SH)
         n = 0
         for _ in range(40):
@@ -725,7 +728,7 @@ class RectContain(Harness):
             bad, got, mg, V = self._judge(R, p)
             assert not bad, (f, s, p, got, mg)
             n += 1
-        return n
+        return n + rep
 
 
 # ---------------------------------------------------------------------------
@@ -977,6 +980,9 @@ class HexVertices(Harness):
                                 vertices=[complex(v) for v in V]))
 
     def concrete(self, cfg, rng):
+        rep = 0
+        if cfg.get('shape', 'hex') == 'hex' and cfg['rot'] == 0.0 and not cfg.get('hist'):
+            rep = rep_constructors_and_setters()
         sh, ce = repo_module(SH), repo_module(CE)
         for _ in range(20):
             pos = complex(rng.uniform(-5, 5), rng.uniform(-5, 5))
@@ -984,7 +990,7 @@ class HexVertices(Harness):
                                10**rng.uniform(-2, 2), rng.uniform(-720, 720),
                                cfg.get('hist'))
             assert not bad, bad
-        return 20
+        return 20 + rep
 
 
 # ---------------------------------------------------------------------------
@@ -1235,6 +1241,9 @@ class BorderPoint(Harness):
                     key='C19/%s.get_border_point/%s' % (cls, kind), detail=det)
 
     def concrete(self, cfg, rng):
+        rep = 0
+        if cfg['shape'] == 'square' and cfg['rot'] == 0.0 and cfg.get('ratio') is None and cfg.get('off') is None:
+            rep = rep_border_points()
         sh, ce = repo_module(SH), repo_module(CE)
         shape = cfg['shape']
         if shape == 'rect':
@@ -1249,7 +1258,7 @@ class BorderPoint(Harness):
                                      rng.uniform(0.05, 1), a, a)
                 assert not bad, det
                 n += 1
-            return n
+            return n + rep
         n = 0
         for _ in range(40):
             pos = complex(rng.uniform(-5, 5), rng.uniform(-5, 5))
@@ -1259,7 +1268,7 @@ class BorderPoint(Harness):
                                  rng.uniform(0.05, 1))
             assert not bad, det
             n += 1
-        return n
+        return n + rep
 
 
 # ---------------------------------------------------------------------------
@@ -1426,6 +1435,9 @@ class RandomUser(Harness):
 
     def concrete(self, cfg, rng):
         """seeded global RNG; axis-aligned squares and any hexagon"""
+        rep = 0
+        if cfg['cell'] == 'square' and cfg['rot'] == 0.0:
+            rep = rep_random_users()
         ce = repo_module(CE)
         np.random.seed(rng.randrange(2**31))
         n = 0
@@ -1447,7 +1459,7 @@ class RandomUser(Harness):
             assert f_inside_margin(V, u) / r > -1e-9, (pos, r, u)
             assert abs(u - pos) >= mdr * C.radius * (1 - 1e-9)
             n += 1
-        return n
+        return n + rep
 
 
 # ---------------------------------------------------------------------------
@@ -1863,6 +1875,9 @@ class Distances(Harness):
         return n
 
     def concrete(self, cfg, rng):
+        rep = 0
+        if cfg['type'] == 'square' and cfg['N'] == 4 and not cfg.get('hist'):
+            rep = rep_clusters()
         n = 0
         if cfg.get('hist') == 'setpos' and cfg['type'] == 'simple' and \
                 cfg['N'] == 3:
@@ -1873,7 +1888,7 @@ class Distances(Harness):
                                       rot_s=0.0, dz_re=rng.uniform(-9, 9),
                                       dz_im=rng.uniform(1, 9)))
         assert not r['reproduced'], r
-        return n + 1
+        return n + 1 + rep
 
 
 # ---------------------------------------------------------------------------
@@ -2023,6 +2038,328 @@ class SquareSetters(Harness):
                                 failed=bad))
 
 
+# ---------------------------------------------------------------------------
+# Data-representation probes (concrete differential runs of the real code).
+# The exact-real symbolic model cannot see which Python / numpy scalar type
+# carries a number; the real code can depend on it (np.deg2rad(np.uint8(100))
+# is computed in float16).  Every probe calls the public API with the
+# canonical representation (Python float / complex) and with every other
+# representation of the SAME number and demands the same result.
+import os as _os
+
+from pysym import probes as _probes
+
+_UNSIGNED_SIZE = _os.environ.get('VERIF_C19_UNSIGNED_SIZE') == '1'
+_INT_TABLE = (('Python int', int, None, None),
+              ('np.int64', np.int64, -2**63, 2**63 - 1),
+              ('np.int32', np.int32, -2**31, 2**31 - 1),
+              ('np.int16', np.int16, -2**15, 2**15 - 1),
+              ('np.int8', np.int8, -128, 127),
+              ('np.uint32', np.uint32, 0, 2**32 - 1),
+              ('np.uint16', np.uint16, 0, 2**16 - 1),
+              ('np.uint8', np.uint8, 0, 255))
+
+
+def _real_kinds(x, unsigned=True, f16=True):
+    """(tag, value, loose) for every scalar type that holds x exactly;
+    loose: the type itself computes in reduced precision (float32/float16),
+    which numpy's scalar arithmetic legitimately propagates"""
+    x = float(x)
+    out = [('np.float64', np.float64(x), 0)]
+    if float(np.float32(x)) == x:
+        out.append(('np.float32', np.float32(x), 1))
+    if f16 and abs(x) < 6e4 and float(np.float16(x)) == x:
+        out.append(('np.float16', np.float16(x), 2))
+    if x.is_integer():
+        for tag, t, lo, hi in _INT_TABLE:
+            if tag.startswith('np.uint') and not unsigned:
+                continue
+            if (lo is None or lo <= x) and (hi is None or x <= hi):
+                out.append((tag, t(int(x)), 0))
+    return out
+
+
+def _cplx_kinds(z):
+    z = complex(z)
+    out = [('np.complex128', np.complex128(z), 0)]
+    if complex(np.complex64(z)) == z:
+        out.append(('np.complex64', np.complex64(z), 1))
+    if z.imag == 0:
+        out.append(('Python float', z.real, 0))
+        out += [k for k in _real_kinds(z.real, unsigned=z.real >= 0)]
+    return out
+
+
+_LOOSE = {0: (1e-9, 1e-12), 1: (2e-5, 2e-6), 2: (1e-2, 5e-3)}
+
+
+def _rep(key, call, args, kinds, scale=1.0):
+    """differential run: `kinds` maps an argument index to the list of
+    (tag, value, loose) representations of that argument"""
+    from pysym.runner import ConcreteViolation
+    base = call(*args)
+    if not _probes._same(base, call(*args), 1e-12, 1e-15):
+        raise ConcreteViolation(key + ':data-representation:second-call-'
+                                'differs', _js(dict(args=list(args))))
+    n = 1
+    for i, ks in kinds.items():
+        for tag, v, loose in ks:
+            a2 = list(args)
+            a2[i] = v
+            try:
+                out = call(*a2)
+            except Exception as e:  # noqa
+                raise ConcreteViolation(
+                    '%s:data-representation:raises-%s' % (key,
+                                                          type(e).__name__),
+                    _js(dict(argument=i, given_as=tag, value=repr(v),
+                             canonical_args=[repr(x) for x in args],
+                             error=repr(e)[:200])))
+            rtol, atol = _LOOSE[loose]
+            if not _probes._same(base, out, rtol, atol * scale):
+                raise ConcreteViolation(
+                    '%s:data-representation:differs' % key,
+                    _js(dict(argument=i, given_as=tag, value=repr(v),
+                             canonical_args=[repr(x) for x in args],
+                             canonical_result=base, result=out)))
+            n += 1
+    return n
+
+
+def _probe_shapes():
+    sh, ce = repo_module(SH), repo_module(CE)
+    return [('Hexagon', lambda: sh.Hexagon(2 + 3j, 1.5, 10)),
+            ('Rectangle', lambda: sh.Rectangle(-1 - 0.5j, 2 + 1.5j, 25)),
+            ('Circle', lambda: sh.Circle(1 - 1j, 2.0)),
+            ('Cell', lambda: ce.Cell(-1 + 2j, 0.75, 1, -45)),
+            ('Cell3Sec', lambda: ce.Cell3Sec(3 - 2j, 2.5, 2, 15)),
+            ('CellSquare', lambda: ce.CellSquare(0.5 + 0.5j, 2.0, 3, 30))]
+
+
+def rep_border_points():
+    """get_border_point(angle, ratio) / add_border_user: angle and ratio in
+    every scalar representation (and angle containers)"""
+    n = 0
+    for name, mk in _probe_shapes():
+        S = mk()
+        for ang in (0, 25, 100, 125, 200, 300, -45, -130, 400, 17.5, 0.25):
+            for ratio in (0.75, 1, 0, 0.5):
+                n += _rep('C19/%s.get_border_point' % name,
+                          lambda a, q: S.get_border_point(a, q),
+                          [float(ang), float(ratio)],
+                          {0: _real_kinds(ang), 1: _real_kinds(ratio)},
+                          scale=S.radius)
+        n += _rep('C19/%s.get_border_point' % name,
+                  lambda a: S.get_border_point(a), [100.0],
+                  {0: _real_kinds(100)}, scale=S.radius)
+        if name in ('Hexagon', 'Rectangle', 'Circle'):
+            continue
+
+        def users(a, q):
+            C = mk()
+            C.add_border_user(a, q)
+            return np.array([u.pos for u in C.users])
+
+        for ang in (100, 250, -45, 17.5):
+            n += _rep('C19/%s.add_border_user' % name, users,
+                      [float(ang), 0.75],
+                      {0: _real_kinds(ang), 1: [('np.float64',
+                                                 np.float64(0.75), 0)]},
+                      scale=S.radius)
+        angs = [0.0, 50.0, 100.0, 150.0, 200.0]
+        conts = [('list of int', [int(a) for a in angs], 0),
+                 ('float64 array', np.array(angs), 0),
+                 ('float32 array', np.array(angs, dtype=np.float32), 1)]
+        for dt in (np.int64, np.int32, np.int16, np.uint16, np.uint8):
+            conts.append(('%s array' % dt.__name__, np.array(angs, dtype=dt),
+                          0))
+        conts.append(('tuple of np.uint8', tuple(np.uint8(a) for a in angs),
+                      0))
+        rats = [('None', None, 0), ('list of float', [1.0] * 5, 0),
+                ('float64 array', np.ones(5), 0)]
+        n += _rep('C19/%s.add_border_user' % name, users, [angs, 1.0],
+                  {0: conts, 1: rats}, scale=S.radius)
+    return n
+
+
+def rep_containment():
+    """is_point_inside_shape(point): Python complex / float / int and numpy
+    scalar kinds"""
+    n = 0
+    for name, mk in _probe_shapes():
+        S = mk()
+        V = [complex(v) for v in S.vertices]
+        c = complex(S.pos)
+        pts = [c, c + 0.25 * (V[0] - c), c + 0.5 * (V[1] - c),
+               c + 1.5 * (V[0] - c), c + 2 * (V[2] - c), 1.0 + 0j, 2.0 + 0j,
+               -1.0 + 0j, 0j, 3.0 + 0j, 0.5 + 0.5j, 2 + 3j, 100.0 + 0j]
+        for p in pts:
+            if name != 'Circle' and abs(f_inside_margin(V, p)) < 1e-6 and \
+                    name != 'Cell3Sec':
+                continue
+            n += _rep('C19/%s.is_point_inside_shape' % name,
+                      lambda q: bool(S.is_point_inside_shape(q)), [p],
+                      {0: _cplx_kinds(p)})
+    return n
+
+
+def rep_constructors_and_setters():
+    """positions / sizes / rotations handed to constructors and setters as
+    int and numpy scalar kinds: same outline"""
+    sh, ce = repo_module(SH), repo_module(CE)
+    n = 0
+
+    def outline(S):
+        out = [np.array(S.vertices), complex(S.pos), float(S.radius)]
+        if isinstance(S, ce.Cell3Sec):
+            out += [np.array([S._sec1.pos, S._sec2.pos, S._sec3.pos]),
+                    float(S._sec1.radius), float(S._sec2.rotation)]
+        if isinstance(S, sh.Hexagon):
+            out.append(float(S.height))
+        return out
+
+    makers = [('Hexagon', lambda p, r, o: sh.Hexagon(p, r, o)),
+              ('Cell', lambda p, r, o: ce.Cell(p, r, 1, o)),
+              ('Cell3Sec', lambda p, r, o: ce.Cell3Sec(p, r, 1, o)),
+              ('CellSquare', lambda p, r, o: ce.CellSquare(p, r, 1, o)),
+              ('Circle', lambda p, r, o: sh.Circle(p, r))]
+    for name, mk in makers:
+        for pos, r, rot in ((2 + 3j, 3, 30), (4 + 0j, 2, 100),
+                            (-1 + 0.5j, 0.5, -45), (0j, 1, 0)):
+            kinds = {0: _cplx_kinds(pos),
+                     1: _real_kinds(r, unsigned=_UNSIGNED_SIZE),
+                     2: _real_kinds(rot, unsigned=_UNSIGNED_SIZE)}
+            n += _rep('C19/%s.__init__' % name,
+                      lambda p, q, o: outline(mk(p, q, o)),
+                      [complex(pos), float(r), float(rot)], kinds, scale=r)
+
+            def via_setters(p, q, o):
+                S = mk(1 + 2j, 2.0, 10.0)
+                S.radius = q
+                S.pos = p
+                if name != 'Circle':
+                    S.rotation = o
+                return outline(S)
+
+            if name != 'CellSquare':      # (side vs radius: no radius setter)
+                n += _rep('C19/%s.setters' % name, via_setters,
+                          [complex(pos), float(r), float(rot)], kinds,
+                          scale=r)
+
+            def moved(dz):
+                S = mk(1 + 2j, 2.0, 10.0)
+                S.move_by_relative_coordinate(dz)
+                return outline(S)
+
+            n += _rep('C19/%s.move_by_relative_coordinate' % name, moved,
+                      [complex(pos)], {0: _cplx_kinds(pos)})
+    for f, s_, rot in ((-1 - 1j, 2 + 1j, 25), (0j, 4 + 2j, 0),
+                       (3 + 0j, -1 + 0j, 90)):
+        n += _rep('C19/Rectangle.__init__',
+                  lambda a, b, o: outline(sh.Rectangle(a, b, o)),
+                  [complex(f), complex(s_), float(rot)],
+                  {0: _cplx_kinds(f), 1: _cplx_kinds(s_),
+                   2: _real_kinds(rot, unsigned=_UNSIGNED_SIZE)})
+    return n
+
+
+def rep_random_users():
+    """add_random_user(s): min_dist_ratio / num_users as int and numpy kinds
+    (same RNG seed -> same users)"""
+    ce = repo_module(CE)
+    n = 0
+    for name, mk in _probe_shapes()[3:]:
+
+        def users(mdr, num):
+            np.random.seed(99)
+            C = mk()
+            C.add_random_users(num, None, mdr)
+            C.add_random_user(None, mdr)
+            return np.array([u.pos for u in C.users])
+
+        for mdr in (0, 0.5, 0.25):
+            n += _rep('C19/%s.add_random_users' % name, users,
+                      [float(mdr), 3],
+                      {0: _real_kinds(mdr),
+                       1: [k for k in _real_kinds(3) if 'float' not in k[0]]})
+    return n
+
+
+def _cluster_state(cl):
+    cells = list(cl)
+    return [np.array([c.pos for c in cells]),
+            np.array([c.vertices for c in cells]),
+            np.array([float(complex(c.rotation).real) for c in cells]),
+            float(cl.radius), float(cl.external_radius), complex(cl.pos),
+            len(cells)]
+
+
+def rep_clusters():
+    """Cluster(cell_radius, num_cells, pos, ..., rotation) with numpy scalar
+    kinds; the distance matrices of such clusters, also after a move given as
+    int / numpy kinds"""
+    ce = repo_module(CE)
+    n = 0
+    for ctype, N, r, pos, rot in (('simple', 7, 2, 1 + 2j, 30),
+                                  ('simple', 3, 1.5, 0j, 100),
+                                  ('3sec', 7, 1, 3 + 0j, -45),
+                                  ('square', 4, 2, 1 - 1j, 0),
+                                  ('square', 9, 1, 2 + 0j, 25),
+                                  ('simple', 19, 1, 0j, 0),
+                                  ('simple', 1, 1, 1 + 1j, 10)):
+
+        def build(rr, nn, pp, oo):
+            ce.Cluster._normalized_cell_positions.clear()
+            return ce.Cluster(rr, nn, pp, 1, ctype, oo)
+
+        kinds = {0: _real_kinds(r, unsigned=_UNSIGNED_SIZE),
+                 1: [k for k in _real_kinds(N) if 'float' not in k[0]],
+                 2: _cplx_kinds(pos),
+                 3: _real_kinds(rot, unsigned=_UNSIGNED_SIZE)}
+        n += _rep('C19/Cluster.__init__/' + ctype,
+                  lambda a, b, c, d: _cluster_state(build(a, b, c, d)),
+                  [float(r), N, complex(pos), float(rot)], kinds, scale=r)
+
+        def dists(rr, nn, pp, oo, dz):
+            cl = build(rr, nn, pp, oo)
+            cells = list(cl)
+            cells[-1].add_border_user(40.0, 0.5)
+            cells[0].add_border_user(200.0, 0.25)
+            cells[-1].pos = cells[-1].pos + dz
+            cells[0].move_by_relative_coordinate(dz)
+            return [cl.calc_dist_all_users_to_each_cell(),
+                    cl.calc_dist_all_users_to_each_cell_no_wrap_around(),
+                    np.array([u.pos for u in cl.get_all_users()])]
+
+        kinds = dict(kinds)
+        kinds[4] = _cplx_kinds(5 + 0j)
+        n += _rep('C19/Cluster.calc_dist_all_users/' + ctype, dists,
+                  [float(r), N, complex(pos), float(rot), 5 + 0j], kinds,
+                  scale=r)
+    ce.Cluster._normalized_cell_positions.clear()
+    return n
+
+
+REP_OUTSIDE = (
+    'data-representation probes (concrete differential runs, not solver '
+    'verdicts): every int / numpy integer / float scalar kind of angle, ratio, '
+    'position, size, rotation, num_cells, min_dist_ratio that holds the value '
+    'exactly; np.float32 / np.float16 / np.complex64 inputs are compared with '
+    'the precision of that type (2e-5 / 1e-2 relative): numpy scalar '
+    'arithmetic legitimately stays in the input precision',
+    'not probed because the clean library rejects them by its documented '
+    'types: add_border_user(ratio) other than float / None / iterable of '
+    'float (an int or np.float32 ratio fails its isinstance assert), '
+    'Cluster.add_random_users with a scalar cell id and non-int num_users / '
+    'non-float min_dist_ratio (asserts)',
+    'UNSIGNED numpy scalars as radius / side / rotation are excluded unless '
+    'VERIF_C19_UNSIGNED_SIZE=1: on the clean tree Hexagon(2+3j, np.uint8(3), '
+    '30).vertices is wrong by 128 (-self._radius wraps to 253) and '
+    'Cell3Sec(0, 1, 1, np.uint8(0))._sec1.rotation is 226 instead of -30 '
+    '(self.rotation - 30 wraps); unsigned angles, ratios, positions and '
+    'num_cells ARE probed')
+
+
 def _wrap_replay(h):
     orig = h.replay
 
@@ -2037,6 +2374,10 @@ def _wrap_replay(h):
 HARNESSES = [RectContain(), CircleContain(), HexVertices(), BorderPoint(),
              RandomUser(), ClusterLayout(), Distances(), PointProcess(),
              SquareSetters()]
+for _h in HARNESSES:
+    if _h.name in ('rect-contain', 'hex-vertices', 'border-point',
+                   'random-user', 'distances'):
+        _h.outside = tuple(_h.outside) + REP_OUTSIDE
 HARNESSES = [_wrap_replay(h) for h in HARNESSES]
 
 MANIFEST = dict(
